@@ -6,7 +6,7 @@ From Dials Require Import Base.Outcome Base.Runes Reflect.Ty Transform.RType Tra
   Transform.MFlatten Transform.MOthers Transform.Manglers Transform.Transformer
   Transform.WellFormed Transform.TransformerProofs Transform.AliasProofs Transform.ManglerProofs
   Transform.EmptyProofs Transform.FlattenProofs Transform.FuelProofs Transform.CounterpartSpec
-  Transform.SpecProofs.
+  Transform.SpecProofs Transform.AliasSpecProofs.
 Import ListNotations.
 
 (* ReverseTranslate's running offset against what TranslateType recorded, for
@@ -164,6 +164,22 @@ Theorem reverse_type_exact : forall fuel E ms x v rt rv,
   exists fs nm vals, xs_ty x = TStruct fs nm /\ rv = VStruct vals /\ length vals = length (unpack fs).
 Proof. exact reverse_type_exact_l. Qed.
 
+(* the flag and pflag chains end to end: [alias; flatten].  For every
+   pointerified type with scalar / pointer / map / slice leaves and no alias tag
+   on an embedded field, ANY filling of the translated fields reverses to
+   exactly the value (or the error, with its class) that the by-name
+   specification computes: every leaf looked up under its flattened name, an
+   aliased field (at any depth, leaf or struct) the one of its two copies that
+   is set, both set an error naming it, structs nil iff nothing below is set *)
+Theorem flag_chain_lossless : forall fuel E tags tag te fs nm tt x filled,
+  wf_fields fs = true -> simple_fields fs = true -> alias_ok_fields tags fs = true ->
+  translate fuel [MAlias tags; MFlatten tag 0%N te] (TStruct fs nm) = Ok (tt, x) ->
+  length filled = length (unpack_ty tt) ->
+  Some (reverse fuel E [MAlias tags; MFlatten tag 0%N te] x (tt, VStruct filled)) =
+  counterpart_spec E [MAlias tags; MFlatten tag 0%N te] (TStruct fs nm) tt filled.
+Proof. exact alias_flatten_chain_spec_l. Qed.
+
+Print Assumptions flag_chain_lossless.
 Print Assumptions offsets_partition.
 Print Assumptions layer_is_pointwise.
 Print Assumptions alias_lossless.
